@@ -2,6 +2,7 @@
 //! on generated inputs and writes one JSON case per line: abstract inputs + canonicalised real results.
 mod dump;
 mod frame;
+mod gendb;
 mod history;
 mod io;
 mod kdbx;
@@ -11,6 +12,7 @@ mod panicx;
 mod probe;
 mod totp;
 mod rng;
+mod saveop;
 mod tree;
 
 use rng::Rng;
@@ -126,6 +128,8 @@ fn main() {
         "key" => keyop::run(&mut ctx),
         "merge" => merge::run(&mut ctx),
         "probe" => probe::run(),
+        "save" => saveop::run(&mut ctx, false),
+        "save-hostile" => saveop::run(&mut ctx, true),
         "frame-wf" => frame::run_wf(&mut ctx),
         "frame-cred" => frame::run_cred(&mut ctx),
         "frame-tamper" => frame::run_tamper(&mut ctx),
